@@ -570,6 +570,16 @@ def check(prop, tier, seed):
         if not concerns:
             continue
         nk = re.sub(r'\s+', '', str(fkey))
+        # An assertion inside a proof hint (or a loop invariant) is a statement about a program point.  When the statements
+        # of the function moved (any hint lost, fuzzily placed, left out or rewritten for renamed locals), its failure says
+        # nothing about the code: UNDECIDED.  Contract clauses (postconditions) are not affected by this rule.
+        in_hint = bool(f.get('hint')) or 'assertion failed' in f['message'] or 'invariant not satisfied' in f['message']
+        moved = (nk in hint_state and (hint_state[nk]['config'] != 'FULL' or hint_state[nk].get('fuzzy_placed'))) or nk in renamed_fns
+        if in_hint and moved and nk not in novel:
+            f = dict(f)
+            f['message'] = 'the statements of %s moved (hint configuration "%s"); an assertion of a proof hint failed, which decides nothing; ' % (fkey, hint_state.get(nk, {}).get('config', 'renamed locals')) + f['message']
+            undecided_fns.append(f)
+            continue
         if nk in novel:
             f = dict(f)
             f['message'] = '%s %s: a failed proof inside it decides nothing; ' % (fkey, novel[nk]) + f['message']
